@@ -42,7 +42,7 @@ func init() {
 			"constants (microsecondsPerSecond/Minute/Hour, nanosecondsPerMicrosecond), timespanMaximum is 838:59:59 in microseconds, timespanMinimum its negation, and none of these variables is assigned or address-taken; " +
 			"(T3) ZeroTimestampDatetimeStrs[p] is the zero datetime with exactly p fractional zeros. A violated T1/T2 entry rounds or scales a representable temporal value to a different one without error or warning.",
 		NotCovered: "string truncation (and the TEXT/BLOB length limits), temporal parsing, DECIMAL precision/scale (computed with apd, no table), enum/set membership, idempotence of Convert, rounding direction, NaN, conversions whose result is handed to another conversion instead of being returned, the INSERT IGNORE warning path, literal factors written inline (t.Nanosecond()/1000, hours > 838) instead of through the anchored tables and scalars",
-		Technique:  "SSA + one-variable interval domain over dominating branch conditions (interval engine) + sibling nil-guard engine + constant tables folded with go/constant and who-may-write over go/types",
+		Technique:  "SSA + one-variable interval domain over dominating branch conditions (interval engine) + sibling nil-guard engine + constant tables folded with go/constant and who-may-write over go/types; path-sensitive go/cfg walk per conversion verdict (consumer clause)",
 		Run: func(c *Ctx) {
 			rels := []string{}
 			for _, pk := range c.P.Module {
